@@ -176,3 +176,24 @@ def chain_lines(name, chain, first=0, count=None, protein_only=True):
 
 
 TER = "TER   "
+
+
+def adjacent_same_type(types=("ASP", "GLU", "HIS", "CYS", "TYR", "LYS", "ARG"), pad=2):
+    """Windows of real structure around two ADJACENT residues of the same titratable type:
+    [(source, lines, id_first, id_second)]."""
+    out = []
+    for src in ("1FTJ-Chain-A", "3SGB", "1HPX", "4DFR"):
+        blocks = [b for b in residue_blocks(atom_lines(src)) if b[0] != "TER" and b[1][0].startswith("ATOM")]
+        for k in range(pad, len(blocks) - pad - 1):
+            a, b = blocks[k][0], blocks[k + 1][0]
+            if a[3] == b[3] and a[3] in types and a[0] == b[0] and a[2] == " " and b[2] == " ":
+                win = blocks[k - pad:k + 2 + pad]
+                if all(w[0][0] == a[0] for w in win):
+                    lines = [ln for _, ls in win for ln in ls]
+                    out.append((src, lines, (a[0], int(a[1]), a[2]), (b[0], int(b[1]), b[2])))
+    return out
+
+
+def make_twins(lines, first, second, code="A"):
+    """Give residue `second` the number of `first` plus an insertion code (labels only)."""
+    return relabel_residues(lines, {second: (first[0], first[1], code)})
